@@ -30,7 +30,8 @@ impl Clo {
     fn val(&self, k: i64, idx: Option<usize>, v: i64) -> i64 { self.a * k + self.b * v + self.c + idx.map_or(0, |i| 1000 * i as i64) }
     fn acc(&self, k: i64, idx: Option<usize>, v: i64) -> bool { self.val(k, idx, v).rem_euclid(self.m) < self.t }
     fn opt(&self, k: i64, idx: Option<usize>, v: i64) -> Option<i64> { if self.acc(k, idx, v) { Some(self.val(k, idx, v) + 7) } else { None } }
-    fn step(&self, k: i64, acc: i64, v: i64) -> i64 { (acc * 31 + self.b * v + self.a * k + self.c).rem_euclid(1_000_003) }
+    /// (i128 inside: round-5 seeds sit at the limits of i64 — the model computes over unbounded integers)
+    fn step(&self, k: i64, acc: i64, v: i64) -> i64 { (acc as i128 * 31 + (self.b * v + self.a * k + self.c) as i128).rem_euclid(1_000_003) as i64 }
 }
 
 type Log = Vec<(i64, Option<usize>, i64)>;
@@ -56,6 +57,24 @@ impl Tag for f64 {
     fn of(t: i64) -> Option<f64> { if t.abs() < (1 << 53) { Some(tag_f64z(t)) } else { None } }
     fn num(&self) -> i64 { *self as i64 }
     fn back(&self) -> String { let t = *self as i64; if self.to_bits() == tag_f64z(t).to_bits() { t.to_string() } else { format!("{:?}(bits {:#x})", self, self.to_bits()) } }
+}
+
+/// round 5: the f32 image carries the SPECIAL values as elements (tags 0..11 = NaN, +inf, -inf, -0.0, 0.0, MAX, MIN_POSITIVE, the
+/// smallest subnormal, 1, -1, MIN, EPSILON; every other tag t = t + 0.25): iteration code that inspects its elements (`is_nan`,
+/// `== zero()`, `is_finite`) skips / drops / replaces them and changes the transcript
+const F32_PAL: [f32; 12] = [f32::NAN, f32::INFINITY, f32::NEG_INFINITY, -0.0, 0.0, f32::MAX, f32::MIN_POSITIVE, 1.0e-45, 1.0, -1.0, f32::MIN, f32::EPSILON];
+impl Tag for f32 {
+    const NAME: &'static str = "f32";
+    fn of(t: i64) -> Option<f32> { if (0..12).contains(&t) { Some(F32_PAL[t as usize]) } else if t.abs() < (1 << 21) { Some(t as f32 + 0.25) } else { None } }
+    fn num(&self) -> i64 {
+        if self.is_nan() { return 0; }
+        match F32_PAL.iter().position(|q| q.to_bits() == self.to_bits()) { Some(i) => i as i64, None => (*self - 0.25) as i64 }
+    }
+    fn back(&self) -> String {
+        let t = self.num();
+        let same = match <f32 as Tag>::of(t) { Some(q) => q.to_bits() == self.to_bits() || (q.is_nan() && self.is_nan()), None => false };
+        if same { t.to_string() } else { format!("{:?}(bits {:#x})", self, self.to_bits()) }
+    }
 }
 
 fn show_tag_arr<T: Tag>(a: &Array<T>) -> String {
@@ -180,7 +199,8 @@ fn exec_closure(op: &str, args: &[&str], re: Option<Reent>) -> Option<String> {
     if raw.0.iter().product::<usize>() != raw.1.len() { return None; }
     let (p, init) = closure_params(op, args)?;
     let base = closure_on::<i64>(op, &raw, p, init, re)?;
-    for (name, other) in [(<f64 as Tag>::NAME, closure_on::<f64>(op, &raw, p, init, re)), (<u8 as Tag>::NAME, closure_on::<u8>(op, &raw, p, init, re)), (<String as Tag>::NAME, closure_on::<String>(op, &raw, p, init, re))] {
+    for (name, other) in [(<f64 as Tag>::NAME, closure_on::<f64>(op, &raw, p, init, re)), (<u8 as Tag>::NAME, closure_on::<u8>(op, &raw, p, init, re)), (<String as Tag>::NAME, closure_on::<String>(op, &raw, p, init, re)),
+        (<f32 as Tag>::NAME, closure_on::<f32>(op, &raw, p, init, re))] {
         if let Some(t) = other { if t != base { return Some(format!("TYPE-DIVERGENCE on Array<{name}>: {}; on Array<i64>: {}", truncate(&t, 400), truncate(&base, 400))); } }
     }
     let again = closure_on::<i64>(op, &raw, p, init, re)?;
@@ -196,6 +216,14 @@ fn judge_closure(op: &str, args: &[&str], re: Option<Reent>, expected: &str) -> 
         let native = native_transcript(op, &parse_arr_raw(args[0]), p, init);
         if native != expected { return Some(Verdict::Mismatch { observed: format!("ORACLE-DIVERGENCE native reference transcript `{}`", truncate(&native, 400)), detail: format!("the harness-native reference disagrees with the model, which says `{}`", truncate(expected, 400)) }); }
         ORACLE_VALIDATIONS.fetch_add(1, std::sync::atomic::Ordering::Relaxed);
+        // SHADOW run of the in-place judge of the giant cases: same op, same closure, the u8 image of this case's array
+        { let raw = parse_arr_raw(args[0]);
+          if observed == expected && re.is_none() && raw.1.len() <= 5000 && raw.1.iter().all(|t| (0..=255).contains(t)) {
+            match inplace_closure(op, &raw.0, raw.1.iter().map(|&t| t as u8).collect(), p, init) {
+                Ok(_) => { GIANT_SHADOW.fetch_add(1, std::sync::atomic::Ordering::Relaxed); }
+                Err(d) => return Some(Verdict::Mismatch { observed: format!("ORACLE-DIVERGENCE the in-place judge of the giant cases objects: {}", truncate(&d, 400)), detail: format!("on a case whose transcript the model confirms: `{}`", truncate(expected, 300)) }),
+            }
+        } }
         // A-B-A with a value permutation: the same call on the array with its values REVERSED (same shape, multiset, checksum),
         // judged by the native transcript just validated; then this case again
         let raw = parse_arr_raw(args[0]);
@@ -226,6 +254,156 @@ fn judge_closure_native(op: &str, args: &[&str], expected: &str) -> Option<Verdi
         Some(Verdict::Mismatch { observed: truncate(&observed, 600), detail: format!("differs from the native reference transcript at byte {at}: real `…{}`, reference `…{}`",
             truncate(observed.get(lo..).unwrap_or(""), 160), truncate(native.get(lo..).unwrap_or(""), 160)) })
     }
+}
+
+// ------------------------------------------------------------------ round 5: fold SEEDS of every accumulator type
+
+/// `folds ARR CLO INIT STY`: `fold` with an accumulator of type STY whose SEED is the special value encoded by the integer INIT
+/// (floats: INIT is the bit pattern, so NaN / ±inf / -0.0 / MAX / subnormal seeds are plain integers in the case line and for the
+/// model, which folds over unbounded integers).  The closure decodes the accumulator, applies the model's `step`, logs the visit
+/// and encodes the answer again; the transcript (decoded result + visit log) must be the model's for `fold ARR CLO INIT`.
+/// `f64n`: EVERY accumulator is a NaN (quiet NaN with the integer in its payload).
+fn fold_seeded_on<T: Tag, S: ArrayElement + 'static>(raw: &(Vec<usize>, Vec<i64>), p: Clo, init: i64, enc: fn(i64) -> S, dec: fn(&S) -> i64) -> Option<String> {
+    let elems: Vec<T> = raw.1.iter().map(|&t| T::of(t)).collect::<Option<Vec<T>>>()?;
+    let a: Array<T> = Array::new(elems, raw.0.clone()).expect("harness: malformed array literal in case line");
+    Some(guarded(move || {
+        let mut k: i64 = 0;
+        let mut log: Log = vec![];
+        let head = show_res(&a.fold(enc(init), |acc, v| { let v = v.num(); let r = p.step(k, dec(acc), v); log.push((k, None, v)); k += 1; enc(r) }), |s| dec(s).to_string());
+        format!("{}|{}", head, show_log(&log))
+    }))
+}
+const NANP: u64 = 0x7ff8u64 << 48;
+fn fold_seeded<T: Tag>(sty: &str, raw: &(Vec<usize>, Vec<i64>), p: Clo, init: i64) -> Option<String> {
+    match sty {
+        "f64" => fold_seeded_on::<T, f64>(raw, p, init, |i| f64::from_bits(i as u64), |x| x.to_bits() as i64),
+        "f64n" => { if !(0..1i64 << 48).contains(&init) { return None; }
+            fold_seeded_on::<T, f64>(raw, p, init, |i| f64::from_bits(NANP | i as u64), |x| { let b = x.to_bits(); if b >> 48 == 0x7ff8 { (b & ((1 << 48) - 1)) as i64 } else { -1 } }) }
+        "f32" => { if !(0..1i64 << 32).contains(&init) { return None; }
+            fold_seeded_on::<T, f32>(raw, p, init, |i| f32::from_bits(i as u32), |x| x.to_bits() as i64) }
+        "i64" => fold_seeded_on::<T, i64>(raw, p, init, |i| i, |x| *x),
+        "str" => fold_seeded_on::<T, String>(raw, p, init, |i| i.to_string(), |x| x.parse().unwrap_or(i64::MIN + 1)),
+        "t2" => fold_seeded_on::<T, Tuple2<f64, i64>>(raw, p, init, |i| Tuple2(f64::from_bits(i as u64), i), |x| if x.0.to_bits() as i64 == x.1 { x.1 } else { i64::MIN + 2 }),
+        "lst" => fold_seeded_on::<T, List<f64>>(raw, p, init, |i| List(vec![f64::from_bits(i as u64), 1.5]), |x| if x.0.len() == 2 && x.0[1] == 1.5 { x.0[0].to_bits() as i64 } else { i64::MIN + 3 }),
+        _ => None,
+    }
+}
+fn judge_fold_seeded(args: &[&str], expected: &str) -> Option<Verdict> {
+    let raw = parse_arr_raw(args[0]);
+    if raw.0.iter().product::<usize>() != raw.1.len() { return None; }
+    let p = Clo::parse(args.get(1)?)?;
+    let init: i64 = args.get(2)?.parse().ok()?;
+    let sty = *args.get(3)?;
+    let base = fold_seeded::<i64>(sty, &raw, p, init)?;
+    let mut observed = base.clone();
+    for (name, other) in [("f64", fold_seeded::<f64>(sty, &raw, p, init)), ("u8", fold_seeded::<u8>(sty, &raw, p, init)), ("String", fold_seeded::<String>(sty, &raw, p, init)), ("f32", fold_seeded::<f32>(sty, &raw, p, init))] {
+        if let Some(t) = other { if t != base { observed = format!("TYPE-DIVERGENCE on Array<{name}>: {}; on Array<i64>: {}", truncate(&t, 400), truncate(&base, 400)); break; } }
+    }
+    if class_of(expected) == "ok" {
+        let native = native_transcript("fold", &raw, p, init);
+        if native != expected { return Some(Verdict::Mismatch { observed: format!("ORACLE-DIVERGENCE native reference transcript `{}`", truncate(&native, 400)), detail: format!("the harness-native reference disagrees with the model, which says `{}`", truncate(expected, 400)) }); }
+        ORACLE_VALIDATIONS.fetch_add(1, std::sync::atomic::Ordering::Relaxed);
+    }
+    Some(compare_default(observed, expected))
+}
+
+// ------------------------------------------------------------------ round 5: GIANT arrays (above 2^20 and above 2^24 elements), u8, judged in place
+
+/// element p of a giant u8 array (all 256 values, no short period)
+fn giant_pat(p: usize) -> u8 { ((p.wrapping_mul(2_654_435_761) >> 13) ^ p) as u8 }
+fn red(x: i64) -> u8 { x.rem_euclid(251) as u8 }
+
+/// One closure operation on `Array<u8>` judged IN PLACE (no transcript is built): the closure itself checks, call by call, that
+/// call number k sees element k (and is passed position k by the enumerating variants); the result is compared position by
+/// position with the same stamping closure `Clo` (answers reduced mod 251 to stay in u8) evaluated natively.  `Err` = first divergence.
+/// Used alone on the giant shapes; run in SHADOW on every ordinary closure case whose tags fit u8, where the model has just
+/// confirmed the transcript of the same operation with the same closure (`GIANT_SHADOW` counts these validations).
+fn inplace_closure(op: &str, shape: &[usize], elems: Vec<u8>, p: Clo, init: i64) -> Result<String, String> {
+    let n = elems.len();
+    let a: Array<u8> = Array::new(elems.clone(), shape.to_vec()).map_err(|e| format!("harness: Array::new refused: {}", err_name(&e)))?;
+    let en = op.ends_with("_e");
+    let idx = |k: usize| if en { Some(k) } else { None };
+    let k = std::cell::Cell::new(0usize);
+    let bad: std::cell::RefCell<Option<String>> = std::cell::RefCell::new(None);
+    // the visit check: returns the call number
+    let visit = |i: Option<usize>, v: u8| -> usize {
+        let kk = k.get(); k.set(kk + 1);
+        if bad.borrow().is_none() {
+            if kk >= n { *bad.borrow_mut() = Some(format!("call number {kk} on an array of {n} elements")); }
+            else if v != elems[kk] { *bad.borrow_mut() = Some(format!("call number {kk} was given the element {v}, element {kk} is {}", elems[kk])); }
+            else if let Some(i) = i { if i != kk { *bad.borrow_mut() = Some(format!("call number {kk} (element {kk}) was passed the position {i}")); } }
+        }
+        kk
+    };
+    let shape_of = |r: &Array<u8>| r.get_shape().unwrap();
+    let cmp_seq = |what: &str, got: &[u8], want: &mut dyn Iterator<Item = u8>| -> Result<usize, String> {
+        let mut c = 0usize;
+        for w in want { match got.get(c) { Some(g) if *g == w => c += 1, Some(g) => return Err(format!("{what}: position {c} holds {g}, expected {w}")), None => return Err(format!("{what}: only {} elements, expected more", got.len())) } }
+        if c != got.len() { return Err(format!("{what}: {} elements, expected {c}", got.len())); }
+        Ok(c)
+    };
+    let e = |x: ArrayError| format!("err {}", err_name(&x));
+    let out = std::panic::catch_unwind(std::panic::AssertUnwindSafe(|| -> Result<String, String> {
+        let text = match op {
+            "map" | "map_e" => {
+                let r = if en { a.map_e(|i, v| { let kk = visit(Some(i), *v); red(p.val(kk as i64, idx(kk), *v as i64)) }) } else { a.map(|v| { let kk = visit(None, *v); red(p.val(kk as i64, None, *v as i64)) }) }.map_err(e)?;
+                if shape_of(&r) != shape { return Err(format!("result shape {:?}, receiver shape {:?}", shape_of(&r), shape)); }
+                cmp_seq("result", &r.get_elements().unwrap(), &mut (0..n).map(|q| red(p.val(q as i64, idx(q), elems[q] as i64))))?;
+                "mapped".to_string()
+            }
+            "filter" | "filter_e" => {
+                let r = if en { a.filter_e(|i, v| { let kk = visit(Some(i), *v); p.acc(kk as i64, idx(kk), *v as i64) }) } else { a.filter(|v| { let kk = visit(None, *v); p.acc(kk as i64, None, *v as i64) }) }.map_err(e)?;
+                let c = cmp_seq("result", &r.get_elements().unwrap(), &mut (0..n).filter(|&q| p.acc(q as i64, idx(q), elems[q] as i64)).map(|q| elems[q]))?;
+                if shape_of(&r) != [c] { return Err(format!("result shape {:?}, expected the flat shape [{c}]", shape_of(&r))); }
+                format!("kept {c}")
+            }
+            "filter_map" | "filter_map_e" => {
+                let r = if en { a.filter_map_e(|i, v| { let kk = visit(Some(i), *v); p.opt(kk as i64, idx(kk), *v as i64).map(red) }) } else { a.filter_map(|v| { let kk = visit(None, *v); p.opt(kk as i64, None, *v as i64).map(red) }) }.map_err(e)?;
+                let c = cmp_seq("result", &r.get_elements().unwrap(), &mut (0..n).filter_map(|q| p.opt(q as i64, idx(q), elems[q] as i64).map(red)))?;
+                if shape_of(&r) != [c] { return Err(format!("result shape {:?}, expected the flat shape [{c}]", shape_of(&r))); }
+                format!("kept {c}")
+            }
+            "fold" => {
+                let r = a.fold(init, |&acc, v| { let kk = visit(None, *v); p.step(kk as i64, acc, *v as i64) }).map_err(e)?;
+                let want = (0..n).fold(init, |acc, q| p.step(q as i64, acc, elems[q] as i64));
+                if r != want { return Err(format!("fold answered {r}, expected {want}")); }
+                format!("folded to {r}")
+            }
+            "for_each" => { a.for_each(|v| { visit(None, *v); }).map_err(e)?; "visited".to_string() }
+            "for_each_e" => { a.for_each_e(|i, v| { visit(Some(i), *v); }).map_err(e)?; "visited".to_string() }
+            "into_iter_ref" => { let mut c = 0usize; for v in &a { visit(None, *v); c += 1; } format!("iterated {c}") }
+            "into_iter" => { let mut c = 0usize; for v in a.clone() { visit(None, v); c += 1; } format!("iterated {c}") }
+            _ => return Err("harness: unknown giant op".to_string()),
+        };
+        Ok(text)
+    }));
+    let text = match out { Ok(r) => r?, Err(_) => return Err("panic".to_string()) };
+    if let Some(b) = bad.borrow().clone() { return Err(b); }
+    if k.get() != n { return Err(format!("{} closure calls / items on an array of {n} elements", k.get())); }
+    Ok(format!("ok native in place: {n} elements, every element once in flat order, {text}"))
+}
+static GIANT_SHADOW: std::sync::atomic::AtomicUsize = std::sync::atomic::AtomicUsize::new(0);
+static GIANT_ONLY: std::sync::atomic::AtomicUsize = std::sync::atomic::AtomicUsize::new(0);
+
+fn giant_elems(shape: &[usize]) -> Vec<u8> { let n: usize = shape.iter().product(); (0..n).map(giant_pat).collect() }
+
+/// `giant OP SHAPE CLO INIT` (closure ops, both IntoIterator impls) / `giant unary OP SHAPE` (one-operand ops on u8)
+fn judge_giant(args: &[&str], expected: &str) -> Option<Verdict> {
+    if expected != "ok native" { return Some(compare_default("harness: giant expects the driver to answer `ok native`".into(), expected)); }
+    let op = *args.first()?;
+    GIANT_ONLY.fetch_add(1, std::sync::atomic::Ordering::Relaxed);
+    let res = if op == "unary" {
+        let (uop, shape) = (*args.get(1)?, parse_usize_list(args.get(2)?));
+        if !op_defined(uop, "u8") || !(OPS_ALL.contains(&uop) || OPS_MORE.contains(&uop) || round_digits(uop).is_some()) { return None; }
+        giant_unary(uop, &shape)
+    } else {
+        if !CL_OPS.contains(&op) && !op.starts_with("into_iter") { return None; }
+        let shape = parse_usize_list(args.get(1)?);
+        let p = Clo::parse(args.get(2)?)?;
+        let init: i64 = args.get(3)?.parse().ok()?;
+        inplace_closure(op, &shape, giant_elems(&shape), p, init)
+    };
+    Some(match res { Ok(t) => Verdict::Match(t), Err(d) => Verdict::Mismatch { observed: truncate(&d, 600), detail: "giant array, judged in place by the harness-native reference (validated against the model on the ordinary cases of this run)".into() } })
 }
 
 // ------------------------------------------------------------------ unary math ops
@@ -281,8 +459,98 @@ fn near_int(j: usize, min: i128, max: i128) -> i128 {
     (b + [0, 1, 0, -1][j % 4]).clamp(min, max)
 }
 
+// ---- round 5, class (16): dense boundary sweeps.  ONE exact magic value in a scalar kernel (a fast path for integral exponents that
+// is wrong only at exp2(-1023.0)) is met only if the value itself is in the pool: every integer-valued float in -1100..=1100 and
+// every half between them, the mathematical constants with their negatives / reciprocals / neighbours / f32 roundings, every power of
+// two 2^k (k = -1080..=1030) and every power of ten 10^k (k = -325..=309) with one ulp on each side and both signs, multiples of
+// pi/4, pi/6 and pi, perfect squares and cubes, the overflow / underflow thresholds of exp / exp2 / exp_m1 / sinh / cosh, the f32 and
+// f64 exponent-range edges, the integer limits of every narrow type with the halves next to them, both zeros, NaN, the infinities.
+/// 2^k exactly, from the bit pattern (subnormal below -1022, 0 below -1074, +inf above 1023)
+fn pow2(k: i32) -> f64 { if k > 1023 { f64::INFINITY } else if k >= -1022 { f64::from_bits(((k + 1023) as u64) << 52) } else if k >= -1074 { f64::from_bits(1u64 << (k + 1074)) } else { 0.0 } }
+fn pow2_f32(k: i32) -> f32 { if k > 127 { f32::INFINITY } else if k >= -126 { f32::from_bits(((k + 127) as u32) << 23) } else if k >= -149 { f32::from_bits(1u32 << (k + 149)) } else { 0.0 } }
+fn with_ulps(x: f64, v: &mut Vec<f64>) {
+    v.push(x);
+    if x.is_finite() && x != 0.0 { v.push(f64::from_bits(x.to_bits() + 1)); v.push(f64::from_bits(x.to_bits() - 1)); }
+}
+fn sweep_f64() -> &'static [f64] {
+    static P: std::sync::OnceLock<Vec<f64>> = std::sync::OnceLock::new();
+    P.get_or_init(|| {
+        use std::f64::consts::*;
+        let mut v: Vec<f64> = vec![];
+        for k in -1100..=1100 { v.push(k as f64); }
+        for k in -1100..1100 { v.push(k as f64 + 0.5); }
+        let consts = [E, PI, TAU, LN_2, LN_10, LOG2_E, LOG10_E, LOG2_10, LOG10_2, SQRT_2, FRAC_1_SQRT_2, FRAC_PI_2, FRAC_PI_3, FRAC_PI_4, FRAC_PI_6, FRAC_PI_8,
+            FRAC_1_PI, FRAC_2_PI, FRAC_2_SQRT_PI, f64::EPSILON, 180.0 / PI, PI / 180.0, 1.0e-20, 0.1, 0.2, 0.3, 1.0 / 3.0, 2.0 / 3.0, 1.1, 1.7320508075688772, 2.23606797749979, 0.5772156649015329, 1.618033988749895];
+        for c in consts { for x in [c, -c, 1.0 / c, -1.0 / c, c as f32 as f64, -(c as f32 as f64)] { with_ulps(x, &mut v); } }
+        for k in -1080..=1030 { let x = pow2(k); with_ulps(x, &mut v); with_ulps(-x, &mut v); }
+        for k in -325..=309 { let x: f64 = format!("1e{k}").parse().unwrap(); with_ulps(x, &mut v); with_ulps(-x, &mut v); }
+        for k in -128..=128 { let k = k as f64; for x in [k * FRAC_PI_4, k * FRAC_PI_6, k * PI] { v.push(x); } }
+        for k in 1..=1100i64 { v.push((k * k) as f64); v.push((k * k * k) as f64); v.push(-((k * k * k) as f64)); }
+        for r in [46340f64, 46341., 65535., 65536., 94906265., 94906266., 3037000499., 3037000500., 4294967295., 4294967296., 67108864., 1.3407807929942596e154, 1.3407807929942597e154] { with_ulps(r * r, &mut v); v.push(r); }
+        for r in [1290f64, 1291., 1625., 1626., 2097151., 2097152., 2642245., 2642246., 208063., 208064., 5.643803094122362e102] { with_ulps(r * r * r, &mut v); with_ulps(-(r * r * r), &mut v); }
+        let th = [f64::MAX.ln(), f64::MIN_POSITIVE.ln(), 5e-324f64.ln(), (f32::MAX as f64).ln(), (f32::MIN_POSITIVE as f64).ln(), 1.0e-45f64.ln(), f64::MAX.ln() + LN_2, 1024.0, -1074.0, -1075.0, -1022.0, -1023.0, 128.0, -126.0, -149.0, -150.0,
+            f64::MAX.log10(), f64::MAX.log2(), 36.7368005696771, 18.714973875118524, 19.061547465398498, 22.0, 709.0, 710.0, -708.0, -745.0, -746.0, 88.0, 89.0, -87.0, -103.0, -104.0, 0.5f64.ln(), 1.0 - f64::EPSILON / 2.0, 1.0 + f64::EPSILON,
+            f64::MAX, f64::MIN_POSITIVE, 5e-324, f32::MAX as f64, f32::MIN_POSITIVE as f64, 1.0e-45f32 as f64, f64::MAX.sqrt(), f64::MAX.cbrt(), f64::MIN_POSITIVE.sqrt(), 9007199254740992.0, 9007199254740993.0, 4503599627370496.0, 4503599627370495.5, 4503599627370497.0,
+            9223372036854775808.0, 18446744073709551616.0, 2147483647.0, 2147483648.0, 4294967295.0, 32767.0, 32768.0, 65535.0, 127.0, 128.0, 255.0, 256.0, 16777216.0, 16777217.0, 8.0, 360.0, 57.29577951308232];
+        for x in th { with_ulps(x, &mut v); with_ulps(-x, &mut v); for h in [x + 0.5, x - 0.5, -x - 0.5, -x + 0.5] { if h.is_finite() && h.fract() != 0.0 { v.push(h); } } }
+        v.extend([0.0, -0.0, f64::NAN, f64::INFINITY, f64::NEG_INFINITY]);
+        let mut seen = std::collections::HashSet::new();
+        v.retain(|x| seen.insert(canon(*x)));
+        v
+    })
+}
+fn sweep_f32() -> &'static [f32] {
+    static P: std::sync::OnceLock<Vec<f32>> = std::sync::OnceLock::new();
+    P.get_or_init(|| {
+        let ul = |x: f32, v: &mut Vec<f32>| { v.push(x); if x.is_finite() && x != 0.0 { v.push(f32::from_bits(x.to_bits() + 1)); v.push(f32::from_bits(x.to_bits() - 1)); } };
+        let mut v: Vec<f32> = vec![];
+        // the f32 neighbourhoods first (the images of the f64 pool, mostly duplicates of these, follow)
+        for k in -152..=130 { let x = pow2_f32(k); ul(x, &mut v); ul(-x, &mut v); }
+        for k in -46..=39 { let x: f32 = format!("1e{k}").parse().unwrap(); ul(x, &mut v); ul(-x, &mut v); }
+        for k in -1100..=1100 { ul(k as f32, &mut v); v.push(k as f32 + 0.5); }
+        { use std::f32::consts::*; for c in [E, PI, TAU, LN_2, LN_10, LOG2_E, LOG10_E, LOG2_10, LOG10_2, SQRT_2, FRAC_1_SQRT_2, FRAC_PI_2, FRAC_PI_3, FRAC_PI_4, FRAC_PI_6, FRAC_PI_8, FRAC_1_PI, FRAC_2_PI, FRAC_2_SQRT_PI, f32::EPSILON, f32::MAX.ln(), f32::MIN_POSITIVE.ln(), 16777216.0, 8388608.0, 2147483648.0, 9223372036854775808.0, f32::MAX.sqrt(), f32::MAX] { for x in [c, -c, 1.0 / c, -1.0 / c] { ul(x, &mut v); } } }
+        for x in sweep_f64() { v.push(*x as f32); }
+        let mut seen = std::collections::HashSet::new();
+        v.retain(|x| seen.insert(x.key()));
+        v
+    })
+}
+/// integers: every value in -1100..=1100 (i8 / u8: the whole type), ±2^k, ±(2^k ± 1), ±10^k, ±(10^k ± 1), squares and cubes at the
+/// root limits of every width, the limits of every type
+fn sweep_int(min: i128, max: i128) -> Vec<i128> {
+    let mut v: Vec<i128> = (-1100..=1100).collect();
+    for k in 0..=64 { let x = 1i128 << k; for y in [x, x + 1, x - 1] { v.push(y); v.push(-y); } }
+    let mut t = 1i128; for _ in 0..=19 { for y in [t, t + 1, t - 1] { v.push(y); v.push(-y); } t *= 10; }
+    for r in [181i128, 182, 255, 256, 46340, 46341, 65535, 65536, 94906265, 94906266, 3037000499, 3037000500, 4294967295, 4294967296] { for y in [r * r, r * r - 1, r * r + 1] { v.push(y); v.push(-y); } }
+    for r in [5i128, 6, 31, 32, 40, 41, 1290, 1291, 1625, 1626, 2097151, 2097152, 2642245, 2642246, 208063, 208064] { for y in [r * r * r, r * r * r - 1, r * r * r + 1] { v.push(y); v.push(-y); } }
+    v.extend(int_lim(min, max));
+    v.retain(|x| *x >= min && *x <= max);
+    let mut seen = std::collections::HashSet::new();
+    v.retain(|x| seen.insert(*x));
+    v
+}
+/// number of values in the sweep pool of an element type (the generator sizes its shapes by it)
+fn sweep_len(ty: &str) -> usize {
+    match ty {
+        "f64" => sweep_f64().len(), "f32" => sweep_f32().len(),
+        "i8" => sweep_int(i8::MIN as i128, i8::MAX as i128).len(), "i16" => sweep_int(i16::MIN as i128, i16::MAX as i128).len(),
+        "i32" => sweep_int(i32::MIN as i128, i32::MAX as i128).len(), "i64" => sweep_int(i64::MIN as i128, i64::MAX as i128).len(),
+        "u8" => sweep_int(0, u8::MAX as i128).len(), "u16" => sweep_int(0, u16::MAX as i128).len(),
+        "u32" => sweep_int(0, u32::MAX as i128).len(), "u64" => sweep_int(0, u64::MAX as i128).len(),
+        _ => 1,
+    }
+}
+
+/// `round<d>` / `around<d>`: the decimals argument is swept as well (round 5: the seed / parameter is an argument like any other);
+/// `roundv`: a decimals array of the receiver's own shape, `ROUNDV[p % 9]` at flat position p
+fn round_digits(op: &str) -> Option<isize> { op.strip_prefix("around").or_else(|| op.strip_prefix("round"))?.parse().ok() }
+const ROUNDV: [isize; 9] = [0, 1, -1, 2, 5, -2, 15, 3, 308];
+const OPS_ROUND_X: &[&str] = &["round1", "round3", "round4", "round5", "round6", "round8", "round10", "round15", "round16", "round17", "round22", "round23", "round100", "round300", "round308", "round309", "round400",
+    "round-1", "round-2", "round-3", "round-5", "round-10", "round-22", "round-300", "round-308", "round-309", "round-324", "round-400", "around0", "around-1", "around3", "around17", "roundv"];
+
 fn f64_value(cls: &str, j: usize) -> f64 {
     match cls {
+        "sweep" => { let p = sweep_f64(); p[j % p.len()] }
         "near" => near_f64(j),
         "dom" => F64_DOM[j % F64_DOM.len()],
         "edge" => F64_EDGE[j % F64_EDGE.len()],
@@ -310,10 +578,21 @@ macro_rules! on_recv {
 }
 
 type Keys = Result<(Vec<usize>, Vec<u64>), String>;
+thread_local! {
+    /// giant arrays: instead of collecting 2^24 keys, `keys` compares every element in place with `table[input(p)]` and answers
+    /// `[count, first differing position (or u64::MAX), its key]`
+    static INPLACE_TABLE: std::cell::RefCell<Option<Vec<u64>>> = const { std::cell::RefCell::new(None) };
+}
 fn keys<T: ArrayElement + Key>(r: Result<Array<T>, ArrayError>) -> Keys {
     match r {
         Ok(arr) => {
             if !consistent(&arr) { return Err("inconsistent".to_string()); }
+            if let Some(table) = INPLACE_TABLE.with(|t| t.borrow().clone()) {
+                let mut first: (u64, u64) = (u64::MAX, 0);
+                let mut count = 0u64;
+                for (p, x) in (&arr).into_iter().enumerate() { count += 1; if first.0 == u64::MAX && x.key() != table[giant_pat(p) as usize] { first = (p as u64, x.key()); } }
+                return Ok((arr.get_shape().unwrap(), vec![count, first.0, first.1]));
+            }
             Ok((arr.get_shape().unwrap(), arr.get_elements().unwrap().iter().map(Key::key).collect()))
         }
         Err(e) => Err(format!("err {}", err_name(&e))),
@@ -350,6 +629,7 @@ macro_rules! elem_int {
     (@imp $t:ty, $($extra:tt)*) => {
         impl Elem for $t {
             fn value(cls: &str, j: usize) -> Self {
+                if cls == "sweep" { static P: std::sync::OnceLock<Vec<$t>> = std::sync::OnceLock::new(); let p = P.get_or_init(|| sweep_int(<$t>::MIN as i128, <$t>::MAX as i128).into_iter().map(|x| x as $t).collect()); return p[j % p.len()]; }
                 let pick = |l: &[i128]| -> Self { let v: Vec<$t> = l.iter().filter_map(|x| <$t>::try_from(*x).ok()).collect(); v[j % v.len()] };
                 if cls == "near" { return near_int(j, <$t>::MIN as i128, <$t>::MAX as i128) as $t; }
                 if cls == "lim" { pick(&int_lim(<$t>::MIN as i128, <$t>::MAX as i128)) } else { pick(INT_DOM) }
@@ -366,7 +646,8 @@ elem_int!(i8, numops); elem_int!(i16, numops); elem_int!(i64, numops);
 elem_int!(u8, plain); elem_int!(u16, plain); elem_int!(u32, plain); elem_int!(u64, plain);
 impl Elem for i32 {
     // (the original stream ignores the class for i32)
-    fn value(cls: &str, j: usize) -> i32 { if cls == "near" { return near_int(j, i32::MIN as i128, i32::MAX as i128) as i32; } if cls == "lim" { let v = int_lim(i32::MIN as i128, i32::MAX as i128); v[j % v.len()] as i32 } else { I32_VALS[j % I32_VALS.len()] } }
+    fn value(cls: &str, j: usize) -> i32 { if cls == "sweep" { static P: std::sync::OnceLock<Vec<i32>> = std::sync::OnceLock::new(); let p = P.get_or_init(|| sweep_int(i32::MIN as i128, i32::MAX as i128).into_iter().map(|x| x as i32).collect()); return p[j % p.len()]; }
+        if cls == "near" { return near_int(j, i32::MIN as i128, i32::MAX as i128) as i32; } if cls == "lim" { let v = int_lim(i32::MIN as i128, i32::MAX as i128); v[j % v.len()] as i32 } else { I32_VALS[j % I32_VALS.len()] } }
     fn f(self) -> f64 { self as f64 }
     fn t(v: f64) -> Self { v as i32 }
     fn maxv() -> Self { i32::MAX }
@@ -376,7 +657,7 @@ impl Elem for i32 {
 macro_rules! elem_float {
     ($t:ty, $ti:ty, $near:expr) => {
         impl Elem for $t {
-            fn value(cls: &str, j: usize) -> Self { if cls == "near" { return $near(j); } f64_value(cls, j) as $t }
+            fn value(cls: &str, j: usize) -> Self { if cls == "near" { return $near(j); } if cls == "sweep" { return Self::sweep_value(j); } f64_value(cls, j) as $t }
             fn f(self) -> f64 { self as f64 }
             fn t(v: f64) -> Self { v as $t }
             fn nan(self) -> bool { self != self }
@@ -389,6 +670,9 @@ macro_rules! elem_float {
         }
     };
 }
+trait SweepFloat { fn sweep_value(j: usize) -> Self; }
+impl SweepFloat for f64 { fn sweep_value(j: usize) -> f64 { let p = sweep_f64(); p[j % p.len()] } }
+impl SweepFloat for f32 { fn sweep_value(j: usize) -> f32 { let p = sweep_f32(); p[j % p.len()] } }
 elem_float!(f64, i128, near_f64);
 elem_float!(f32, i64, near_f32);
 
@@ -422,9 +706,8 @@ fn native<N: Elem>(op: &str, x: N) -> u64 {
     match op {
         "fix" => if x >= zero { n(f.floor()) } else { n(f.ceil()) },
         "trunc" => n(f.trunc()), "floor" => n(f.floor()), "ceil" => n(f.ceil()),
-        "rint" | "round0" => round_native(x, 0).key(),
-        "round2" => round_native(x, 2).key(),
-        "around1" => round_native(x, 1).key(),
+        "rint" => round_native(x, 0).key(),
+        _ if round_digits(op).is_some() => round_native(x, round_digits(op).unwrap() as i32).key(),
         "exp" => n(f.exp()), "exp2" => n(f.exp2()), "exp_m1" => n(f.exp_m1()),
         // log = logn(single(N::from(e))): the base goes through the element type
         "log" => n(f.log(N::t(std::f64::consts::E).f())),
@@ -471,14 +754,20 @@ fn i0_native(x: f64) -> f64 {
 }
 
 /// the ops of the traits bounded by `Numeric` only, on either receiver
-fn unary_on<N: Elem, R>(r: &R, op: &str) -> Option<Keys>
+fn unary_on<N: Elem, R>(r: &R, op: &str, shape: &[usize]) -> Option<Keys>
 where R: ArrayRounding<N> + ArrayExpLog<N> + ArrayHyperbolic<N> + ArrayMathMisc<N> + ArrayArithmetic<N> + ArrayBinary<N> {
+    if op == "roundv" {
+        let n: usize = shape.iter().product();
+        let d: Array<isize> = Array::new((0..n).map(|p| ROUNDV[p % ROUNDV.len()]).collect(), shape.to_vec()).ok()?;
+        return Some(keys(r.round(&d)));
+    }
+    if let Some(d) = round_digits(op) {
+        let d: Array<isize> = Array::single(d).unwrap();
+        return Some(if op.starts_with("around") { keys(r.around(&d)) } else { keys(r.round(&d)) });
+    }
     Some(match op {
         "fix" => keys(r.fix()), "trunc" => keys(r.trunc()), "floor" => keys(r.floor()), "ceil" => keys(r.ceil()),
         "rint" => keys(r.rint()),
-        "round0" => keys(r.round(&Array::single(0).unwrap())),
-        "round2" => keys(r.round(&Array::single(2).unwrap())),
-        "around1" => keys(r.around(&Array::single(1).unwrap())),
         "exp" => keys(r.exp()), "exp2" => keys(r.exp2()), "exp_m1" => keys(r.exp_m1()),
         "log" => keys(r.log()), "log2" => keys(r.log2()), "log10" => keys(r.log10()), "log_1p" => keys(r.log_1p()),
         "sinh" => keys(r.sinh()), "cosh" => keys(r.cosh()), "tanh" => keys(r.tanh()),
@@ -495,7 +784,8 @@ where R: ArrayRounding<N> + ArrayExpLog<N> + ArrayHyperbolic<N> + ArrayMathMisc<
 /// run the real op on the given receiver; Ok((shape, keys)) or the outcome text
 fn real_unary<N: Elem>(op: &str, a: &Array<N>, recv: Recv) -> Keys {
     let out = std::panic::catch_unwind(std::panic::AssertUnwindSafe(|| {
-        match on_recv!(recv, a, |r| unary_on(r, op)) { Some(k) => k, None => N::call_extra(op, a, recv).unwrap_or_else(|| Err("bad-op".to_string())) }
+        let shape = a.get_shape().unwrap();
+        match on_recv!(recv, a, |r| unary_on(r, op, &shape)) { Some(k) => k, None => N::call_extra(op, a, recv).unwrap_or_else(|| Err("bad-op".to_string())) }
     }));
     match out { Ok(r) => r, Err(_) => Err("panic".to_string()) }
 }
@@ -523,7 +813,7 @@ fn judge<N: Elem>(op: &str, a: &Array<N>, real: Keys, expected: &str) -> Option<
         return Some(Verdict::Mismatch { observed: format!("ok {} elements", keys.len()), detail: format!("model says {} elements", midx.len()) });
     }
     for p in 0..keys.len() {
-        let want = native(op, input[midx[p]]);
+        let want = if op == "roundv" { round_native(input[midx[p]], ROUNDV[p % ROUNDV.len()] as i32).key() } else { native(op, input[midx[p]]) };
         if keys[p] != want {
             return Some(Verdict::Mismatch { observed: format!("ok {}: out[{}] = bits {:#x}", show_list(&shape), p, keys[p]),
                 detail: format!("position {p}: expected {op}(in[{}]) = bits {:#x} (input {}), got bits {:#x}", midx[p], want, input[midx[p]], keys[p]) });
@@ -548,7 +838,7 @@ fn open_if_empty(v: Option<Verdict>, n: usize) -> Option<Verdict> {
 fn exec_unary(args: &[&str], expected: &str) -> Option<Verdict> {
     let n: usize = parse_usize_list(args[2]).iter().product();
     let v = exec_unary_inner(args, expected);
-    if OPS_BROADCAST_ROUTED.contains(&args[0]) { open_if_empty(v, n) } else { v }
+    if OPS_BROADCAST_ROUTED.contains(&args[0]) || round_digits(args[0]).is_some() || args[0] == "roundv" { open_if_empty(v, n) } else { v }
 }
 
 fn show_keys(k: &Keys) -> String {
@@ -594,10 +884,34 @@ fn run_unary<N: Elem>(op: &str, shape: &[usize], cls: &str, off: usize, expected
     Some(v)
 }
 
+/// one-operand op on a giant `Array<u8>` (plain and `Ok(_)` receiver), every output element compared in place with the native kernel
+/// of its input element (256 possible inputs: a table)
+fn giant_unary(op: &str, shape: &[usize]) -> Result<String, String> {
+    let a: Array<u8> = Array::new(giant_elems(shape), shape.to_vec()).map_err(|e| format!("harness: Array::new refused: {}", err_name(&e)))?;
+    let n = a.len().unwrap_or(0);
+    let table: Vec<u64> = (0..=255u8).map(|v| native::<u8>(op, v)).collect();
+    // (above 2^24 elements the plain receiver only: the Result impls clone the array and delegate, exercised on every smaller case)
+    for (recv, name) in [(Recv::Plain, "plain receiver"), (Recv::Chained, "Ok(array) receiver")] {
+        if recv == Recv::Chained && n > (1 << 22) { continue; }
+        INPLACE_TABLE.with(|t| *t.borrow_mut() = Some(table.clone()));
+        let r = real_unary(op, &a, recv);
+        INPLACE_TABLE.with(|t| *t.borrow_mut() = None);
+        match r {
+            Ok((sh, v)) => {
+                if sh != shape { return Err(format!("{name}: result shape {:?}, receiver shape {:?}", sh, shape)); }
+                if v[0] as usize != n { return Err(format!("{name}: {} result elements for {n} input elements", v[0])); }
+                if v[1] != u64::MAX { let p = v[1] as usize; return Err(format!("{name}: out[{p}] = bits {:#x}, expected {op}({}) = bits {:#x}", v[2], giant_pat(p), table[giant_pat(p) as usize])); }
+            }
+            Err(e) => return Err(format!("{name}: {e}")),
+        }
+    }
+    Ok(format!("ok native in place: {op} on {n} u8 elements, {}", if n > (1 << 22) { "plain receiver" } else { "both receivers" }))
+}
+
 fn exec_unary_inner(args: &[&str], expected: &str) -> Option<Verdict> {
     let (op, ty, shape, cls) = (args[0], args[1], parse_usize_list(args[2]), args[3]);
     let off: usize = args[4].parse().ok()?;
-    if !OPS_ALL.contains(&op) && !OPS_FLOAT.contains(&op) && !OPS_MORE.contains(&op) { return None; }
+    if !OPS_ALL.contains(&op) && !OPS_FLOAT.contains(&op) && !OPS_MORE.contains(&op) && round_digits(op).is_none() && op != "roundv" { return None; }
     if !op_defined(op, ty) { return None; }
     match ty {
         "f64" => run_unary::<f64>(op, &shape, cls, off, expected), "f32" => run_unary::<f32>(op, &shape, cls, off, expected),
@@ -619,7 +933,78 @@ fn parse_bits_arr(s: &str) -> Option<(Vec<usize>, Vec<u64>)> {
 }
 fn show_bits_arr(shape: &[usize], v: &[f64]) -> String { format!("{}:{}", show_list(shape), show_list(&v.iter().map(|x| canon(*x)).collect::<Vec<_>>())) }
 
+// ---- round 5: harness-native reference for frexp / ldexp / recombination, read off the IEEE-754 FIELDS (no loop, no call into the
+// crate).  It is compared with the exact rational model on EVERY ordinary frexp / ldexp / roundtrip case of the run
+// (`FLOAT_VALIDATIONS`, reported by the `audit` line) and judges alone the dense sweeps (`frexpn` / `ldexpn` / `roundtripn`: every power
+// of two with its neighbours, every integer, the constants, every exponent -2098..=2097), which would cost the rational model ~20 s.
+fn native_frexp1(x: f64) -> (f64, i32) {
+    if x == 0.0 { return (0.0, 0); }
+    if !x.is_finite() { return (x, 0); }
+    let b = x.to_bits();
+    let (sign, mut ex, mut fr) = (b >> 63, ((b >> 52) & 0x7ff) as i64, b & ((1u64 << 52) - 1));
+    if ex == 0 { let sh = fr.leading_zeros() as i64 - 11; fr = (fr << sh) & ((1u64 << 52) - 1); ex = 1 - sh; }
+    (f64::from_bits((sign << 63) | (1022u64 << 52) | fr), (ex - 1022) as i32)
+}
+/// x * 2^e when that product is a binary64 value (exactly); `None` when it is not (the generators never send such a pair)
+fn native_ldexp1(x: f64, e: i32) -> Option<f64> {
+    if x == 0.0 || !x.is_finite() { return Some(x); }
+    let (m, ex) = native_frexp1(x);                       // x = m * 2^ex, 1/2 <= |m| < 1
+    let mb = m.to_bits();
+    let (sign, fr) = (mb >> 63, (mb & ((1u64 << 52) - 1)) | (1u64 << 52));   // |m| = fr * 2^-53
+    let t = ex as i64 + e as i64;                          // |result| = fr * 2^(t-53), in [2^(t-1), 2^t)
+    if t > 1024 { return None; }
+    if t >= -1021 { return Some(f64::from_bits((sign << 63) | (((t + 1022) as u64) << 52) | (fr & ((1u64 << 52) - 1)))); }
+    let sh = -1021 - t;                                    // subnormal: fr * 2^(t-53) = (fr >> sh) * 2^-1074
+    if sh > 52 || fr & ((1u64 << sh) - 1) != 0 { return None; }
+    Some(f64::from_bits((sign << 63) | (fr >> sh)))
+}
+/// the answer text of a float case by the native reference (`None`: outside its exact domain)
+fn native_float(op: &str, ty: &str, shape: &[usize], vals: &[f64], exps: Option<&[i64]>) -> Option<String> {
+    let _ = ty;
+    match op {
+        "frexp" => { let r: Vec<(f64, i32)> = vals.iter().map(|x| native_frexp1(*x)).collect();
+            Some(format!("ok {};{}:{}", show_bits_arr(shape, &r.iter().map(|q| q.0).collect::<Vec<_>>()), show_list(shape), show_list(&r.iter().map(|q| q.1).collect::<Vec<_>>()))) }
+        "ldexp" => { let r: Vec<f64> = vals.iter().zip(exps?).map(|(x, e)| native_ldexp1(*x, *e as i32)).collect::<Option<Vec<_>>>()?; Some(format!("ok {}", show_bits_arr(shape, &r))) }
+        "roundtrip" => { let r: Vec<f64> = vals.iter().map(|x| if *x == 0.0 { 0.0 } else { *x }).collect(); Some(format!("ok {}", show_bits_arr(shape, &r))) }
+        _ => None,
+    }
+}
+static FLOAT_VALIDATIONS: std::sync::atomic::AtomicUsize = std::sync::atomic::AtomicUsize::new(0);
+static FLOAT_NATIVE_ONLY: std::sync::atomic::AtomicUsize = std::sync::atomic::AtomicUsize::new(0);
+
 fn exec_float(op: &str, args: &[&str], expected: &str) -> Option<Verdict> {
+    // frexpn / ldexpn / roundtripn: judged by the native reference alone
+    if let Some(base) = op.strip_suffix('n').filter(|b| ["frexp", "ldexp", "roundtrip"].contains(b)) {
+        if expected != "ok native" { return Some(compare_default("harness: the dense float sweeps expect the driver to answer `ok native`".into(), expected)); }
+        let (shape, bits) = parse_bits_arr(args.get(1)?)?;
+        let vals: Vec<f64> = bits.iter().map(|b| f64::from_bits(*b)).collect();
+        let exps: Option<Vec<i64>> = if base == "ldexp" { Some(parse_arr_raw(args.get(2)?).1) } else { None };
+        let want = native_float(base, args[0], &shape, &vals, exps.as_deref())?;
+        FLOAT_NATIVE_ONLY.fetch_add(1, std::sync::atomic::Ordering::Relaxed);
+        return match exec_float_real(base, args, &want)? {
+            Verdict::Match(_) => Some(Verdict::Match(format!("ok native reference answer reproduced ({} values)", vals.len()))),
+            Verdict::Mismatch { observed, detail } => {
+                // name the first differing value
+                let at = observed.split([':', ',', ';']).zip(want.split([':', ',', ';'])).position(|(x, y)| x != y);
+                Some(Verdict::Mismatch { observed: truncate(&observed, 600), detail: format!("{detail}; native reference (validated against the rational model on the ordinary cases of this run): field {:?} of `{}`", at, truncate(&want, 600)) })
+            }
+            v => Some(v),
+        };
+    }
+    if class_of(expected) == "ok" && ["frexp", "ldexp", "roundtrip"].contains(&op) {
+        if let Some((shape, bits)) = parse_bits_arr(args.get(1)?) {
+            let vals: Vec<f64> = bits.iter().map(|b| f64::from_bits(*b)).collect();
+            let exps: Option<Vec<i64>> = if op == "ldexp" { Some(parse_arr_raw(args.get(2)?).1) } else { None };
+            if let Some(native) = native_float(op, args[0], &shape, &vals, exps.as_deref()) {
+                if native != expected { return Some(Verdict::Mismatch { observed: format!("ORACLE-DIVERGENCE native float reference `{}`", truncate(&native, 400)), detail: format!("the harness-native reference disagrees with the rational model, which says `{}`", truncate(expected, 400)) }); }
+                FLOAT_VALIDATIONS.fetch_add(1, std::sync::atomic::Ordering::Relaxed);
+            }
+        }
+    }
+    exec_float_real(op, args, expected)
+}
+
+fn exec_float_real(op: &str, args: &[&str], expected: &str) -> Option<Verdict> {
     let ty = args[0];
     let (shape, bits) = parse_bits_arr(args[1])?;
     let vals: Vec<f64> = bits.iter().map(|b| f64::from_bits(*b)).collect();
@@ -740,6 +1125,10 @@ fn exec_inner(op: &str, args: &[&str], expected: &str) -> Option<Verdict> {
                 show_list(&z.get_elements().unwrap().iter().map(|t| format!("{}/{}", t.0, t.1)).collect::<Vec<_>>())))), expected)), n)
         }
         "unary" => exec_unary(args, expected),
+        "folds" => judge_fold_seeded(args, expected),
+        "giant" => judge_giant(args, expected),
+        "frexpn" => exec_float(op, args, expected),
+        "ldexpn" | "roundtripn" => { let n = parse_bits_arr(args.get(1)?)?.1.len(); open_if_empty(exec_float(op, args, expected), n) }
         "frexp" => exec_float(op, args, expected),
         // ldexp pairs the mantissas with the exponents through `zip`, i.e. through the broadcasting layer, which refuses zero-length
         // axes by design: the same open region as `zip` / rint / round / log on arrays without elements (C03's question)
@@ -747,8 +1136,11 @@ fn exec_inner(op: &str, args: &[&str], expected: &str) -> Option<Verdict> {
         // last line of the stream: how often the native reference transcript was validated against the model in this run
         "audit" => {
             let (v, h) = (ORACLE_VALIDATIONS.load(std::sync::atomic::Ordering::Relaxed), NATIVE_ONLY.load(std::sync::atomic::Ordering::Relaxed));
-            let text = format!("ok audit: native closure transcript validated against the model on {v} cases of this run; {h} huge cases judged by it alone");
+            let ld = |c: &std::sync::atomic::AtomicUsize| c.load(std::sync::atomic::Ordering::Relaxed);
+            let (gs, go, fv, fo) = (ld(&GIANT_SHADOW), ld(&GIANT_ONLY), ld(&FLOAT_VALIDATIONS), ld(&FLOAT_NATIVE_ONLY));
+            let text = format!("ok audit: native closure transcript validated against the model on {v} cases of this run; {h} huge cases judged by it alone; in-place closure judge run in shadow on {gs} model-confirmed cases, {go} giant cases judged by it / by the kernel table alone; native frexp/ldexp reference validated against the rational model on {fv} cases, {fo} dense-sweep cases judged by it alone");
             if expected != "ok audit" { return Some(compare_default(text, expected)); }
+            if (go > 0 && gs < 1000) || (fo > 0 && fv < 300) { return Some(Verdict::Mismatch { observed: text, detail: "a native reference (in-place closure judge / float reference) was used without having been validated against the model on enough smaller cases".into() }); }
             if h > 0 && v < 1000 { Some(Verdict::Mismatch { observed: text, detail: "the native reference was used without having been validated against the model on at least 1000 smaller cases".into() }) } else { Some(Verdict::Match(text)) }
         }
         _ => None,
@@ -773,7 +1165,7 @@ fn exec(op: &str, args: &[&str], expected: &str) -> Option<Verdict> {
     let no = LINE_NO.with(|c| { c.set(c.get() + 1); c.get() });
     let prev = PREV.with(|p| p.borrow_mut().take());
     // cases that may not return (frexp of an infinity) and the bookkeeping line are never re-run; long cases neither
-    let cheap = !matches!(op, "frexp" | "roundtrip" | "audit" | "hclo") && args.iter().map(|a| a.len()).sum::<usize>() + expected.len() < 20_000;
+    let cheap = !matches!(op, "frexp" | "roundtrip" | "audit" | "hclo" | "giant" | "frexpn" | "roundtripn" | "ldexpn") && args.iter().map(|a| a.len()).sum::<usize>() + expected.len() < 20_000;
     if cheap && no % 3 != 0 { PREV.with(|p| *p.borrow_mut() = Some((op.to_string(), args.iter().map(|a| a.to_string()).collect(), expected.to_string(), verdict_key(&v)))); }
     if let Some((pop, pargs, pexp, pkey)) = prev {
         if no % 3 == 0 {
@@ -1127,6 +1519,137 @@ fn gen(tier: &str, seed: u64, out: &mut dyn FnMut(String)) {
         let hs: &[usize] = if oi % 2 == 0 { &[130, 130] } else { &[16385] };
         out(fold_or(op, &tag_off(hs, 1), big_clos[oi % 3], 11));
     }
+
+    // ================= robustness streams, round 5 (classes 16, 17, 20 of the round-5 task; see the header of each block)
+    // ---- (16) dense boundary sweeps: EVERY one-operand op (and round / around with 33 decimals arguments) x EVERY element type it is
+    //      defined for, on the whole sweep pool of that type (f64 ~27 000 values, f32 ~13 000, i8 / u8 the whole type, the wider integers
+    //      ~2 500), in one array per (op, type), the shape rotating between flat, [r, 251] and [3, r, 11]
+    let round_ops: Vec<&str> = OPS_ROUND_X.to_vec();
+    for (oi, op) in all_ops.iter().chain(round_ops.iter()).enumerate() {
+        for (ti, ty) in ALL_TYPES.iter().enumerate() {
+            if !op_defined(op, ty) { continue; }
+            let float = *ty == "f64" || *ty == "f32";
+            // quick: the extra decimals of round / around on the floats and on two integer types in rotation
+            if !thorough && oi >= all_ops.len() && !float && (oi + ti) % 4 != 0 { continue; }
+            let n = sweep_len(ty);
+            let shape = match (oi + ti + seed as usize) % 3 { 0 => vec![n], 1 => vec![n.div_ceil(251), 251], _ => vec![3, n.div_ceil(33), 11] };
+            out(format!("unary {op} {ty} {} sweep {}", show_list(&shape), (oi * 13 + ti) % 7));
+        }
+    }
+    //      ... and round / around with the extra decimals on small shapes through the ordinary classes (A-B-A, three receivers)
+    for (oi, op) in round_ops.iter().enumerate() { for (ti, ty) in ALL_TYPES.iter().enumerate() {
+        if !thorough && (oi + ti) % 3 != 0 { continue; }
+        let float = *ty == "f64" || *ty == "f32";
+        let cls = if float { ["dom", "lim", "edge", "mix", "spec", "near"][(oi + ti) % 6] } else { ["dom", "lim", "near"][(oi + ti) % 3] };
+        let s = &rshapes[(oi + ti) % rshapes.len()];
+        out(format!("unary {op} {ty} {} {cls} {}", show_list(s), (oi * 3 + ti) % 60));
+    } }
+    //      frexp / ldexp / recombination on the dense pools, judged by the native field-based reference (validated against the
+    //      rational model on every ordinary float case of the run): the finite values of the f64 and f32 sweep pools; ldexp with EVERY
+    //      exponent that keeps the product exact: 1 x 2^e (e = -1074..=1023), 1.5 x 2^e, 2^1023 x 2^-e, 2^-1074 x 2^e (e up to 2097),
+    //      and every pool value moved into the lowest normal binade, the top binade and by +-1
+    {
+        let fin64: Vec<u64> = sweep_f64().iter().filter(|x| x.is_finite()).map(|x| x.to_bits()).chain([f64::NAN.to_bits(), 0, 1u64 << 63]).collect();
+        let fin32: Vec<u64> = sweep_f32().iter().filter(|x| x.is_finite()).map(|x| (*x as f64).to_bits()).collect();
+        let lane_shapes: [&[usize]; 5] = [&[2000], &[40, 50], &[4, 5, 100], &[1999], &[2, 2, 500]];
+        for (ty, pool) in [("f64", &fin64), ("f32", &fin32)] {
+            for (ci, ch) in pool.chunks(2000).enumerate() {
+                let s: Vec<usize> = if ch.len() == 2000 { lane_shapes[ci % 5].iter().product::<usize>().eq(&2000).then(|| lane_shapes[ci % 5].to_vec()).unwrap_or(vec![2000]) } else { vec![ch.len()] };
+                let body = format!("{}:{}", show_list(&s), show_list(ch));
+                out(format!("frexpn {ty} {body}"));
+                out(format!("roundtripn {ty} {body}"));
+            }
+        }
+        // ldexp: (bits of x, exponent) pairs, all exact
+        let mut pairs: Vec<(u64, i64)> = vec![];
+        for e in -1074..=1023i64 { pairs.push((1f64.to_bits(), e)); pairs.push(((-1f64).to_bits(), e)); }
+        for e in -1073..=1023i64 { pairs.push((1.5f64.to_bits(), e)); }
+        for e in 0..=2097i64 { pairs.push((pow2(1023).to_bits(), -e)); pairs.push((1u64, e)); pairs.push(((1u64 << 63) | 1, e)); }
+        for e in -1022..=1023i64 { pairs.push((std::f64::consts::PI.to_bits(), e - 1)); }
+        for (j, b) in fin64.iter().enumerate() {
+            let x = f64::from_bits(*b);
+            if x == 0.0 || x.is_nan() { pairs.push((*b, [0i64, 5, -5, 1024, -1100][j % 5])); continue; }
+            let ex = native_frexp1(x).1 as i64;       // x in [2^(ex-1), 2^ex)
+            if x.to_bits() & 0x7ff0_0000_0000_0000 == 0 { pairs.push((*b, [1024 - ex, 1, 0, 60][j % 4])); continue; }   // subnormal: only upwards
+            pairs.push((*b, [-1021 - ex, 1024 - ex, 1, -1, 0][j % 5]));
+        }
+        pairs.retain(|(b, e)| (i32::MIN as i64..=i32::MAX as i64).contains(e) && { let x = f64::from_bits(*b); x.is_nan() || native_ldexp1(x, *e as i32).is_some() });
+        for (ci, ch) in pairs.chunks(2000).enumerate() {
+            let s: Vec<usize> = if ch.len() == 2000 { lane_shapes[(ci + 1) % 5].to_vec() } else { vec![ch.len()] };
+            let s = if s.iter().product::<usize>() == ch.len() { s } else { vec![ch.len()] };
+            out(format!("ldexpn f64 {}:{} {}:{}", show_list(&s), show_list(&ch.iter().map(|q| q.0).collect::<Vec<_>>()), show_list(&s), show_list(&ch.iter().map(|q| q.1).collect::<Vec<_>>())));
+        }
+        // f32-representable values with exponents that keep the product inside the f32 NORMAL range
+        let mut p32: Vec<(u64, i64)> = vec![];
+        for (j, b) in fin32.iter().enumerate() {
+            let x = f64::from_bits(*b);
+            if x == 0.0 { continue; }
+            let ex = native_frexp1(x).1 as i64;
+            if ex < -125 { p32.push((*b, [128 - ex, 1, 0][j % 3])); continue; }      // f32 subnormal: only upwards
+            p32.push((*b, [-125 - ex, 128 - ex, 1, -1, 0][j % 5]));
+        }
+        p32.retain(|(b, e)| { let r = native_ldexp1(f64::from_bits(*b), *e as i32); matches!(r, Some(r) if (r as f32) as f64 == r) });
+        for ch in p32.chunks(2000) {
+            out(format!("ldexpn f32 {}:{} {}:{}", ch.len(), show_list(&ch.iter().map(|q| q.0).collect::<Vec<_>>()), ch.len(), show_list(&ch.iter().map(|q| q.1).collect::<Vec<_>>())));
+        }
+    }
+    // ---- (17) closure SEEDS: `fold` with accumulator types f64 / f32 / i64 / String / Tuple2<f64,i64> / List<f64> and the special values
+    //      as SEED (NaN with both signs and a payload, +-inf, -0.0, 0.0, 1, -1, MAX, MIN, MIN_POSITIVE, subnormals, EPSILON, 2^53;
+    //      i64: MIN, MAX, 0, +-1), `f64n`: every accumulator a NaN; the stamping closure records every visit
+    {
+        let f64_seeds: Vec<i64> = [f64::NAN, -f64::NAN, f64::from_bits(0x7ff8_0000_0000_0001), f64::INFINITY, f64::NEG_INFINITY, -0.0, 0.0, 1.0, -1.0, f64::MAX, f64::MIN, f64::MIN_POSITIVE, 5e-324, f64::EPSILON, 9007199254740992.0, 0.5, 2.0]
+            .iter().map(|x| x.to_bits() as i64).collect();
+        let f32_seeds: Vec<i64> = [f32::NAN, -f32::NAN, f32::INFINITY, f32::NEG_INFINITY, -0.0, 0.0, 1.0, -1.0, f32::MAX, f32::MIN, f32::MIN_POSITIVE, 1.0e-45, f32::EPSILON]
+            .iter().map(|x| x.to_bits() as i64).collect();
+        let i64_seeds: Vec<i64> = vec![i64::MIN, i64::MAX, 0, 1, -1, i64::MIN + 1, 1 << 53, -(1 << 31), 255, 256];
+        let seed_sets: Vec<(&str, Vec<i64>)> = vec![("f64", f64_seeds.clone()), ("f64n", vec![0, 1, 2, 7, 50, 1_000_002, (1 << 48) - 1]), ("f32", f32_seeds), ("i64", i64_seeds.clone()),
+            ("str", i64_seeds), ("t2", f64_seeds.clone()), ("lst", f64_seeds)];
+        let sshapes: Vec<Vec<usize>> = if thorough { vec![vec![0], vec![1], vec![2], vec![3], vec![2, 3], vec![2, 0], vec![3, 1, 2], vec![2, 2, 2, 2], vec![17], vec![9, 9], vec![300], vec![1030]] }
+            else { vec![vec![0], vec![1], vec![3], vec![2, 3], vec![2, 2, 2], vec![17], vec![9, 9], vec![300]] };
+        for (si, s) in sshapes.iter().enumerate() {
+            let n: usize = s.iter().product();
+            let reps: Vec<i64> = (0..n).map(|_| det.range(0, 11)).collect();
+            let arrs = [tag(s), format!("{}:{}", show_list(s), show_list(&reps)), tag_off(s, 5)];
+            for (yi, (sty, seeds)) in seed_sets.iter().enumerate() { for (di, init) in seeds.iter().enumerate() {
+                for (ci, c) in big_clos.iter().enumerate() {
+                    if !thorough && (si + yi + di + ci) % 3 != 0 && n > 1 { continue; }
+                    out(format!("folds {} {c} {init} {sty}", arrs[(si + yi + di + ci) % 3]));
+                }
+            } }
+        }
+        // the same special values as i64 INIT of the ordinary fold line (S = i64) are covered by `folds .. i64`
+    }
+    // ---- (20) / (11) GIANT arrays: u8, above 2^24 elements ([16 777 219], [4097, 4097]: `as f32` arithmetic on a count or a position is
+    //      exact up to 2^24) and above 2^20 (giant_shapes()); closure ops and both IntoIterator impls with the stamping closure, judged in
+    //      place (the closure checks call number / position / element call by call); one-operand ops on u8 against the 256-entry table
+    //      of the native kernel, plain and Ok(_) receiver.  The driver answers `ok native`.
+    {
+        // (2^24 + 3 elements: the COUNT and the last POSITIONS 2^24 + 1, 2^24 + 2 are all not representable in f32)
+        let g24: [Vec<usize>; 2] = [vec![(1 << 24) + 3], vec![4097, 4097]];
+        let gs = giant_shapes();
+        let giant_ops: Vec<&str> = cl_ops.iter().copied().chain(["into_iter", "into_iter_ref"]).collect();
+        for (oi, op) in giant_ops.iter().enumerate() {
+            let c = big_clos[oi % 3];
+            // every op once above 2^24 (the flat shape and the square one alternate with the seed), thorough: both
+            for (gi, s) in g24.iter().enumerate() { if thorough || (oi + gi + seed as usize) % 2 == 0 { out(format!("giant {op} {} {c} {}", show_list(s), 7 + oi)); } }
+            // ... and on two (thorough: five) of the shapes above 2^20
+            for q in 0..(if thorough { 5 } else { 2 }) { let s = &gs[(oi * 3 + q * 7 + seed as usize) % gs.len()]; out(format!("giant {op} {} {} {}", show_list(s), big_clos[(oi + q + 1) % 3], 11 + q)); }
+        }
+        // one-operand ops on u8.  The ops routed through the broadcasting layer (rint / round / around / log: 0.6 s and 130 MB per million
+        // elements) stay at ~1.05 million elements; `sign` answers Array<isize> (8 bytes per element) and stays below 2.2 million
+        let u8_ops: Vec<&str> = all_ops.iter().copied().filter(|o| op_defined(o, "u8") && !OPS_FLOAT.contains(o)).chain(["round1", "round-1"]).collect();
+        let small_giants: [Vec<usize>; 2] = [vec![1 << 20 | 5], vec![1031, 1033]];
+        for (oi, op) in u8_ops.iter().enumerate() {
+            if OPS_BROADCAST_ROUTED.contains(op) || round_digits(op).is_some() {
+                // (quick: two of these eight per run, rotating with the seed)
+                if thorough || (oi + seed as usize) % 4 == 0 { out(format!("giant unary {op} {}", show_list(&small_giants[(oi + seed as usize) % 2]))); }
+                continue;
+            }
+            // quick: every op above 2^20, a third of them (rotating with the seed) above 2^24; thorough: every op above 2^24 as well
+            out(format!("giant unary {op} {}", show_list(&gs[(oi + seed as usize) % gs.len()])));
+            if *op != "sign" && (thorough || (oi + seed as usize) % 3 == 0) { out(format!("giant unary {op} {}", show_list(&g24[oi % 2]))); }
+        }
+    }
     out("audit".to_string());
 
     // ---- corpus: frexp(±inf) — never returns on the pinned tree (watchdog -> `hang`)
@@ -1145,6 +1668,8 @@ fn nontrivial(op: &str, args: &[&str]) -> bool {
         "frexp" | "ldexp" | "roundtrip" => parse_bits_arr(args[1]).map_or(false, |(_, b)| b.iter().any(|x| { let v = f64::from_bits(*x); v.is_finite() && v != 0.0 })),
         "collect" | "collect_h" => parse_i64_list(args[0]).len() >= 2,
         "audit" => false,
+        "giant" => true,
+        "frexpn" | "ldexpn" | "roundtripn" => true,
         "re" => parse_arr_raw(args[3]).1.len() >= 2,
         "hclo" => true,
         _ => parse_arr_raw(args[0]).1.len() >= 2,
@@ -1152,7 +1677,7 @@ fn nontrivial(op: &str, args: &[&str]) -> bool {
 }
 
 fn main() {
-    harness_main(Spec { prop: "C05", gen, exec, nontrivial, hang_secs: 5,
+    harness_main(Spec { prop: "C05", gen, exec, nontrivial, hang_secs: 15,
         rule: "closures (map, map_e, filter, filter_e, filter_map(_e), fold, for_each(_e), into_iter x2, collect, same-shape zip): exhaustive over every shape rank<=4 len<=3 (+ zero-length) x 4 element patterns (tags, offset tags, repeated/negative, constant) x 3 (quick) / 8 (thorough) counter-stamping closures, + seeded random rank<=5 len<=6; \
 unary math: 43 ops x {f64,f32,i32} x shapes (rank<=4 len<=2 + selected, quick; all rank<=4 len<=3, thorough) x value classes dom/edge/spec(NaN,+-inf)/mix, out[p] == native kernel of in[src[p]] bit-exact; \
 frexp/ldexp/ldexp(frexp): bit patterns of all powers of two 2^-1074..2^1023 (every 37th in quick) with both neighbours and signs, extremes, subnormals, random patterns, f32-representable values, +-0, NaN, +-inf under a 5 s watchdog. \
